@@ -208,11 +208,11 @@ func init() {
 		wait  bool
 	}
 	resize := map[string][]step{
-		"3-2-1w":  {{3, false}, {2, false}, {1, true}},
-		"1-3":     {{1, false}, {3, false}},
-		"2-0w-2":  {{2, false}, {0, true}, {2, false}},
-		"2-1w":    {{2, false}, {1, true}},
-		"3-1-2w":  {{3, false}, {1, false}, {2, true}},
+		"3-2-1w": {{3, false}, {2, false}, {1, true}},
+		"1-3":    {{1, false}, {3, false}},
+		"2-0w-2": {{2, false}, {0, true}, {2, false}},
+		"2-1w":   {{2, false}, {1, true}},
+		"3-1-2w": {{3, false}, {1, false}, {2, true}},
 	}
 	for _, name := range []string{"2-1w", "1-3", "2-0w-2", "3-2-1w", "3-1-2w"} {
 		steps := resize[name]
